@@ -3,6 +3,7 @@ CONSTANTS
  DescPlatStrict = FALSE
  PlatLookupStrict = TRUE
  ReadFaults = TRUE
+ EqualAnnStrict = FALSE
  PutFirst = FALSE
  DedupByDigest = FALSE
  DeleteKeepsOne = FALSE
